@@ -233,6 +233,45 @@ theorem addNode_split_of_overlapping_lines_duplicates :
 
 /-- when at most one line is near the new point the split creates no duplicate in this example (the ordinary case) -/
 example : noDuplicateLines (splitLinesAt (fun i => i == 0) 3 [(0, 2), (1, 2)]) = true := by decide
+
+theorem any_filter_false (a : Nat × Nat) (l : List (Nat × Nat)) : (l.filter (fun b => !sameLine a b)).any (sameLine a) = false := by
+  induction l with
+  | nil => rfl
+  | cons b rest ih =>
+    simp only [List.filter_cons]
+    split
+    · rename_i h
+      simp only [List.any_cons, ih, Bool.or_false]
+      simpa using h
+    · exact ih
+
+theorem noDup_filter (p : Nat × Nat → Bool) (l : List (Nat × Nat)) (h : noDuplicateLines l = true) : noDuplicateLines (l.filter p) = true := by
+  induction l with
+  | nil => rfl
+  | cons a rest ih =>
+    simp only [noDuplicateLines, Bool.and_eq_true, Bool.not_eq_true'] at h
+    simp only [List.filter_cons]
+    split
+    · simp only [noDuplicateLines, Bool.and_eq_true, Bool.not_eq_true']
+      refine ⟨?_, ih h.2⟩
+      -- no element of the filtered rest equals a
+      have : rest.any (sameLine a) = false := h.1
+      rw [List.any_eq_false] at this ⊢
+      intro x hx
+      exact this x (List.mem_filter.mp hx).1
+    · exact ih h.2
+
+/-- ... whereas the split followed by the duplicate test `addSegment` already has (keep the first of every group of entries that join
+    the same two points) never leaves a line twice, whatever the lines and whichever of them are near the new point: a shape for the repair -/
+theorem dedupLines_noDup (l : List (Nat × Nat)) : noDuplicateLines (dedupLines l) = true := by
+  induction l with
+  | nil => rfl
+  | cons a rest ih =>
+    simp only [dedupLines, noDuplicateLines, Bool.and_eq_true, Bool.not_eq_true']
+    exact ⟨any_filter_false a _, noDup_filter _ _ ih⟩
+
+theorem addNode_split_with_duplicate_test_is_clean (near : Nat → Bool) (new : Nat) (ls : List (Nat × Nat)) :
+    noDuplicateLines (dedupLines (splitLinesAt near new ls)) = true := dedupLines_noDup _
 end splitting
 
 end XfemmVerif.C16
